@@ -6,7 +6,7 @@ import ast
 import json
 
 from ..cfg import CFG, typestate, witness, calls_at, path_summaries
-from ..loader import AnalysisError, Repo, body_nodoc, dotted, norm, walk_no_nested, enclosing, qualname, strip_cast
+from ..loader import AnalysisError, Repo, body_nodoc, dotted, norm, walk_no_nested, enclosing, qualname, strip_cast, parent
 from ..report import Report, VERIF
 
 LEVEL = "other"
@@ -206,6 +206,69 @@ def run(repo: Repo, rep: Report, tier: str) -> None:
         src = [norm(s) for s in walk_no_nested(st) if isinstance(s, ast.stmt)]
         ok = any(s == "value = decode_bytes(value).strip()" for s in src)
         rep.check(ok, "title-strip", f"pdu.A_ASSOCIATE_RQ.{attr}", "value = decode_bytes(value).strip()", "PS3.8 Table 9-11: leading and trailing spaces of AE titles are not significant", mod=pdu, node=st)
+
+    # ---- handler binding integrity -----------------------------------------------------------------------
+    rep.rule("binding", "the identity handler consulted is the one bound: binding stores the handler, unbinding resets it only when the named handler is the bound one, only bind/unbind write the table, the default handler is the 'none bound' marker")
+    evm = repo.mod("events")
+    add = evm.funcs.get("_add_handler")
+    rem = evm.funcs.get("_remove_handler")
+    rep.need(add is not None and rem is not None, "events._add_handler / _remove_handler vanished")
+
+    def interv_branch(fn_):
+        for i in ast.walk(fn_):
+            if isinstance(i, ast.If) and norm(i.test) == "isinstance(event, InterventionEvent)":
+                return i.body
+        return None
+
+    ab = interv_branch(add)
+    ap = [a.arg for a in add.args.args]
+    ok = ab is not None and [norm(x) for x in ab if not isinstance(x, ast.Expr)] == [f"{ap[1]}[event] = {ap[2]}"]
+    rep.check(ok, "binding", "events._add_handler", f"intervention: {[norm(x) for x in (ab or [])]}", "binding an intervention event must store exactly the given (handler, args)", mod=evm, node=add)
+    rb = interv_branch(rem)
+    rp_ = [a.arg for a in rem.args.args]
+    ok = False
+    if rb is not None:
+        stmts = [x for x in rb if not (isinstance(x, ast.Expr) and isinstance(x.value, ast.Constant))]
+        if len(stmts) == 1 and isinstance(stmts[0], ast.If):
+            t = norm(stmts[0].test)
+            guards = (f"{rp_[2]} in {rp_[1]}[event]", f"{rp_[1]}[event][0] == {rp_[2]}", f"{rp_[2]} == {rp_[1]}[event][0]", f"{rp_[1]}[event][0] is {rp_[2]}", f"{rp_[2]} is {rp_[1]}[event][0]")
+            body = [norm(x) for x in stmts[0].body]
+            ok = t in guards and body == [f"{rp_[1]}[event] = (get_default_handler(event), None)"] and not stmts[0].orelse
+    rep.check(ok, "binding", "events._remove_handler", f"intervention: {[norm(x)[:70] for x in (rb or [])]}", "unbind(event, h) may reset an intervention event to its default handler only when h is the handler currently bound: otherwise unbinding some other function silently removes e.g. the EVT_USER_ID handler, and the default handler's NotImplementedError is read as 'no handler bound -> accept'", mod=evm, node=rem)
+    gd = evm.funcs.get("get_default_handler")
+    rep.need(gd is not None, "events.get_default_handler vanished")
+    dmap = [d for d in ast.walk(gd) if isinstance(d, ast.Dict)]
+    dflt = None
+    if len(dmap) == 1:
+        for k, v in zip(dmap[0].keys, dmap[0].values):
+            if norm(k) == "EVT_USER_ID":
+                dflt = norm(v)
+    dfn = evm.funcs.get(dflt) if dflt else None
+    ok = dfn is not None and any(isinstance(x, ast.Raise) and "NotImplementedError" in norm(x) for x in body_nodoc(dfn)) and not any(isinstance(x, ast.Return) for x in ast.walk(dfn))
+    rep.check(ok, "binding", "events.get_default_handler", f"EVT_USER_ID -> {dflt}", "the default identity handler must unconditionally raise NotImplementedError (the 'no handler bound' marker _check_user_identity accepts on)", mod=evm, node=gd)
+    # who writes a handler table
+    writers = set()
+    for mname, m in sorted(repo.modules.items()):
+        short = mname.replace("pynetdicom.", "")
+        if short.startswith(("apps.", "tests.", "benchmarks.")):
+            continue
+        for n in ast.walk(m.tree):
+            if isinstance(n, ast.Attribute) and n.attr == "_handlers" and norm(n.value) in ("self", "self.server", "assoc", "self.assoc"):
+                p_ = parent(n)
+                w = isinstance(n.ctx, ast.Store) or (isinstance(p_, ast.Subscript) and p_.value is n and isinstance(p_.ctx, (ast.Store, ast.Del))) or (isinstance(p_, ast.Attribute) and p_.attr in ("pop", "clear", "update", "setdefault", "popitem"))
+                if w:
+                    q = qualname(n).split(".")[-1]
+                    writers.add(f"{short}.{qualname(n)}")
+                    rep.check(q == "__init__", "binding", f"{short}.{qualname(n)}", enclosing(n, (ast.stmt,)) or n, "a handler table is written directly, bypassing _add_handler / _remove_handler", mod=m, node=n)
+    for nm in ("_add_handler", "_remove_handler"):
+        for mname, m in sorted(repo.modules.items()):
+            short = mname.replace("pynetdicom.", "")
+            if short.startswith(("apps.", "tests.", "benchmarks.")):
+                continue
+            for c in ast.walk(m.tree):
+                if isinstance(c, ast.Call) and (dotted(c.func) or "").endswith(nm):
+                    q = qualname(c).split(".")[-1]
+                    rep.check(q in ("bind", "unbind"), "binding", f"{short}.{qualname(c)}", enclosing(c, (ast.stmt,)), f"{nm} is called outside bind()/unbind()", mod=m, node=c)
 
 
 def _enclosing_ifs(node, fn):
